@@ -944,6 +944,17 @@ func (g *Gen) sendHook(ch, x T, chT types.Type, st State, reach string, pos toke
 		hv := g.stGet(st, "ghost.chan_log", vso)
 		g.stSet(st, "ghost.chan_log", vso, app("store", hv, ch.S, app("store", app("select", hv, ch.S), n, x.S)))
 	}
+	// a slice sent on a channel is logged by its object, offset and length (ghosts chan_sobj,
+	// chan_soff, chan_slen, when declared): "which part of which array went out as message n"
+	if x.So.K == KSlice {
+		for _, f := range [][2]string{{"chan_sobj", "s_obj"}, {"chan_soff", "s_off"}, {"chan_slen", "s_len"}} {
+			if gv, ok := g.cs.Ghosts[f[0]]; ok {
+				vso := rawSort(gv.Sort)
+				hv := g.stGet(st, "ghost."+f[0], vso)
+				g.stSet(st, "ghost."+f[0], vso, app("store", hv, ch.S, app("store", app("select", hv, ch.S), n, app(f[1], x.S))))
+			}
+		}
+	}
 	if _, ok := g.cs.Ghosts["chan_closed"]; ok {
 		so := rawSort(g.cs.Ghosts["chan_closed"].Sort)
 		h := g.stGet(st, "ghost.chan_closed", so)
